@@ -60,7 +60,7 @@ def write_cfg(path, ver, flavour, max_id, max_jobs, depth, persist, invariants=N
     with open(path, "w", encoding="utf-8") as fh:
         fh.write("SPECIFICATION MCSpec\n")
         fh.write(f'CONSTANTS GwVer = "{ver}"\n Flavour = "{flavour}"\n MaxId = {max_id}\n MaxJobs = {max_jobs}\n'
-                 f' MaxDepth = {depth}\n WithPersist = {"TRUE" if persist else "FALSE"}\n')
+                 f' IdGiveUpFree = FALSE\n MaxDepth = {depth}\n WithPersist = {"TRUE" if persist else "FALSE"}\n')
         fh.write("CONSTRAINT Bound\nCHECK_DEADLOCK FALSE\n")
         for inv in (INVARIANTS if invariants is None else invariants):
             fh.write(f"INVARIANT {inv}\n")
